@@ -14,7 +14,7 @@ from pyvc import logic
 from pyvc.logic import Forall, Exists, ForallExists
 from pyvc.state import State
 from pyvc.contract import FnContract, Def, DefHeap, DefRes, Clause, ExcCase, Structural, apply_contract
-from pyvc.execute import Exc, Outcome, FieldRef, VTimeout, VGen
+from pyvc.execute import Exc, Outcome, FieldRef, VTimeout, VGen, VAnyOf, VPyList
 from pyvc.values import Num, VObj, VBool, VStr, VOpaque, VNone, NONE, SList, Unsupported
 from pyvc.lib_base import LibBase
 
@@ -37,7 +37,7 @@ for _k, _p in PROFILES.items():
         _p.setdefault(_f, False)
     _p["key"] = _k
 
-ENABLED = ("P", "R", "B")
+ENABLED = ("P", "R", "B", "L")
 
 QP, RP, QG, RG, RE, ITEMS, RD, RI = ("reserve_put_queue", "reservations_put", "reserve_get_queue",
                                       "reservations_get", "reserved_events", "items", "ready_items",
@@ -94,6 +94,19 @@ class StoreLib(LibBase):
 
     def enabled_classes(self):
         return ENABLED
+
+    def chi(self, cls, name, old, args):
+        """characteristic conditions of known findings (regions in which an obligation is known to fail)"""
+        if name == "always":
+            return None
+        if name == "lifo":
+            return z3.Not(self.is_fifo(cls, old))
+        raise KeyError("unknown chi %r" % name)
+
+    def shards(self, cls, fn):
+        if fn in ("move_to_ready_items", "fleet_activation_process") and PROFILES[cls]["fleet"]:
+            return 8
+        return None
 
     def unit_props(self, cls, fn):
         con = self.contracts[cls][fn]
@@ -239,6 +252,15 @@ class StoreLib(LibBase):
                 out.append(("I-nodup.%s/%s" % (a, b),
                             V.forall_idx2(f[a], f[b], lambda i, j, x, y: x.t != y.t, "I-nodup.%s/%s" % (a, b)),
                             ("C02", "C07")))
+        if p["fleet"]:
+            af = f["activate_fleet"].t
+            out.append(("I-fleet.af-allocated", z3.And(af >= 0, af < st.next_id), ("C14",)))
+            if assume:
+                out.append(("I-fleet.af-distinct", st.ghost["tag"](af) == 0, ("C14",)))
+            else:
+                for nm in EVENT_LISTS:
+                    out.append(("I-fleet.af-distinct." + nm, V.forall_idx(f[nm], lambda i, e: e.t != af, "af-distinct"),
+                                ("C14",)))
         # I-nlw
         out.append(("I-nlw-put", z3.Implies(Qp.len > 0, z3.Not(self.grantable_put(cls, st))), ("C04",)))
         out.append(("I-nlw-get", z3.Implies(Qg.len > 0, z3.Not(self.grantable_get(cls, st))), ("C04",)))
@@ -265,13 +287,19 @@ class StoreLib(LibBase):
         return V.forall_idx2(q, q, body, "I-ord", strict_lt=True)
 
     def put_extra(self, cls, c):
+        p = PROFILES[cls]
+        if p["fleet"]:
+            o, n = c.old, c.new
+            af = o.f["activate_fleet"].t
+            full = V.eq(Num(held(o, p) + 1), o.f["capacity"])
+            return [Clause("capacity-trigger", lambda c: trig(n, af) == z3.Or(trig(o, af), full), ("C14",))]
         return []
 
     def put_extra_mods(self, cls):
         return ()
 
     def put_extra_heap(self, cls):
-        return ()
+        return ("triggered",) if PROFILES[cls]["fleet"] else ()
 
     def ghost_owner_pos(self, st, x):
         """position in reserved_items of the reservation owning item x (Skolem function of the LIFO clause)"""
@@ -283,6 +311,8 @@ class StoreLib(LibBase):
         p = PROFILES[cls]
         if p["mover"] and not p["belt"] and con.name == "move_to_ready_items":
             return ("item-delay", args["item"].items[1].t, ("C11",))
+        if p["fleet"] and con.name == "move_to_ready_items":
+            return ("transit-delay", st.f["transit_delay"].t, ("C14",))
         return None
 
     def rely_stable(self, cls):
@@ -404,6 +434,9 @@ class StoreLib(LibBase):
                                     lambda c: z3.Implies(z3.And(o.f[Q].len >= 1, grantable(cls, o)), k >= 1), ("C04",)))
                 items.append(Clause("no-grant-without-room",
                                     lambda c: z3.Implies(k >= 1, grantable(cls, o)), ("C01", "C02")))
+                items.append(Clause("no-grant-no-event-touched",
+                                    lambda c: z3.Implies(k == 0, n.heap_arr("triggered") == o.heap_arr("triggered")),
+                                    ("C04", "C07")))
                 return items
             mods = (Q, R) + ((RE,) if side == "get" else ()) + ((RI,) if side == "get" and p["ready"] else ())
             return FnContract("_trigger_reserve_" + side, [("event", ("opt", EV), None)], post=post,
@@ -620,11 +653,11 @@ class StoreLib(LibBase):
                 modifies=(RG, RE, RI), heap_modifies=("triggered",), result_kind=("bool",), props=("C02", "C04", "C06"))
 
             # ---- _do_put / _trigger_put / put
-            def put_core_r(c):
+            def put_core_r(c, with_trigger):
                 o, n = c.old, c.new
                 e = c.args["put_event"].t
                 x = c.args["item"]
-                return [
+                items = [
                     Def(RP, V.list_pop(o.f[RP], lib.pos(o, RP, e)), ("C01", "C07")),
                     Def(ITEMS, V.list_append(o.f[ITEMS], x), ("C01", "C02")),
                     Clause("result-truthy", lambda c: V.truth(c.res), ("C01",)),
@@ -634,6 +667,21 @@ class StoreLib(LibBase):
                     caller_effect=lambda c: c.new.ghost.setdefault("spawned", []).append(
                         ("move_to_ready_items", {"item": c.args["item"]})))]
                     if p["mover"] else [])
+                if with_trigger:
+                    # the get-side trigger may run (nothing became ready, so under I-nlw-get it grants nothing,
+                    # but the contract does not depend on that)
+                    kg = c.ghost("kg", lambda: n.f[RG].len - o.f[RG].len)
+                    pref = V.list_slice_to(o.f[QG], kg)
+                    items += [
+                        Clause("kg-range", lambda c: z3.And(0 <= kg, kg <= o.f[QG].len), ("C04",)),
+                        Def(QG, V.list_slice_from(o.f[QG], kg), ("C04", "C05")),
+                        Def(RG, V.list_concat(o.f[RG], pref), ("C04", "C05")),
+                        Def(RE, V.list_concat(o.f[RE], pref), ("C02",)),
+                        Clause("Ri-len", lambda c: n.f[RI].len == o.f[RI].len + kg, ("C02",)),
+                        Clause("Ri-prefix", lambda c: V.forall_idx(o.f[RI], lambda i, y: n.f[RI].at(i).t == y.t,
+                                                                   "Ri-prefix"), ("C02",)),
+                    ]
+                return items
 
             def put_pre_r(st, args):
                 x = itobj(args["item"]).t
@@ -642,37 +690,26 @@ class StoreLib(LibBase):
                 if p["tuple"]:
                     pre.append(("delay-nonneg", args["item"].items[1].t >= 0))
                 return pre
+            inner_trig = p["fleet"]      # FleetStore._do_put runs the get-side trigger itself
             put_mods = (RP, ITEMS) + avg_mods + lib.put_extra_mods(cls)
+            inner_mods = put_mods + ((QG, RG, RE, RI) if inner_trig else ())
+            inner_heap = lib.put_extra_heap(cls) + (("triggered",) if inner_trig else ())
+            # explicit-binding stores: a put adds to `items` (in transit), which no request can be served from, so the
+            # full invariant already holds again when _do_put returns
             C["_do_put"] = FnContract(
                 "_do_put", [("put_event", EV, None), ("item", item_kind, None)], pre=put_pre_r,
-                post=put_core_r, excs=put_excs(), normal_requires=put_requires,
-                uses_inv=True, keeps_inv=False, modifies=put_mods, heap_modifies=lib.put_extra_heap(cls),
+                post=lambda c: put_core_r(c, inner_trig), excs=put_excs(), normal_requires=put_requires,
+                uses_inv=True, keeps_inv=True, modifies=inner_mods, heap_modifies=inner_heap,
                 result_kind=("bool",), props=("C01", "C07"))
             C["_trigger_put"] = FnContract(
                 "_trigger_put", [("put_event", EV, None), ("item", item_kind, None)],
                 pre=lambda st, args: [("reservations-nonempty", st.f[RP].len > 0)] + put_pre_r(st, args),
-                post=put_core_r, excs=put_excs(), normal_requires=put_requires,
-                uses_inv=True, keeps_inv=False, modifies=put_mods, heap_modifies=lib.put_extra_heap(cls),
+                post=lambda c: put_core_r(c, inner_trig), excs=put_excs(), normal_requires=put_requires,
+                uses_inv=True, keeps_inv=True, modifies=inner_mods, heap_modifies=inner_heap,
                 result_kind=("bool",), props=("C01", "C07"))
-
-            def post_put_r(c):
-                o, n = c.old, c.new
-                items = put_core_r(c)
-                # the trigger after a put may grant nothing new (ready_items did not change) but is allowed to run
-                kg = c.ghost("kg", lambda: n.f[RG].len - o.f[RG].len)
-                pref = V.list_slice_to(o.f[QG], kg)
-                items += [
-                    Clause("kg-range", lambda c: z3.And(0 <= kg, kg <= o.f[QG].len), ("C04",)),
-                    Def(QG, V.list_slice_from(o.f[QG], kg), ("C04", "C05")),
-                    Def(RG, V.list_concat(o.f[RG], pref), ("C04", "C05")),
-                    Def(RE, V.list_concat(o.f[RE], pref), ("C02",)),
-                    Clause("Ri-len", lambda c: n.f[RI].len == o.f[RI].len + kg, ("C02",)),
-                    Clause("Ri-prefix", lambda c: V.forall_idx(o.f[RI], lambda i, x: n.f[RI].at(i).t == x.t, "Ri-prefix"),
-                           ("C02",)),
-                ]
-                return items
             C["put"] = FnContract(
-                "put", [("put_event", EV, None), ("item", item_kind, None)], pre=put_pre_r, post=post_put_r,
+                "put", [("put_event", EV, None), ("item", item_kind, None)], pre=put_pre_r,
+                post=lambda c: put_core_r(c, True),
                 excs=put_excs(), normal_requires=put_requires, modifies=put_mods + (QG, RG, RE, RI),
                 heap_modifies=("triggered",) + lib.put_extra_heap(cls), result_kind=("bool",),
                 props=("C01", "C02", "C07"))
@@ -875,13 +912,55 @@ class StoreLib(LibBase):
             init_params.append(("mode", ("str",), VStr("FIFO")))
         if p["filt"]:
             init_params.append(("trigger_delay", ("num", "real"), Num(0)))
+        if p["fleet"]:
+            init_params.append(("delay", ("num", "real"), Num(1)))
+            init_params.append(("transit_delay", ("num", "real"), Num(0)))
         C["__init__"] = FnContract(
             "__init__", init_params,
             excs=[ExcCase("ValueError", lambda c: z3.And(z3.Not(c.args["capacity"].inf), c.args["capacity"].t <= 0),
                           "non-positive-capacity", unchanged=False, props=("C20",))],
             normal_requires=lambda c: z3.Or(c.args["capacity"].inf, c.args["capacity"].t > 0),
-            post=lambda c: [Clause("capacity-recorded", lambda c: V.eq(c.new.f["capacity"], c.args["capacity"]), ("C01",))],
+            post=lambda c: [Clause("capacity-recorded", lambda c: V.eq(c.new.f["capacity"], c.args["capacity"]), ("C01",))]
+            + ([Structural("starts-the-activation-process", lambda c: len(
+                [x for x in c.new.ghost.get("spawned", []) if x[0] == "fleet_activation_process"]) == 1, ("C14",))]
+               if p["fleet"] else []),
             uses_inv=False, keeps_inv=True, is_init=True, props=("C01", "C20"))
+
+        if p["fleet"]:
+            def post_fleet_mover(c):
+                o, n = c.old, c.new      # o = state at the last resumption (end of the round trip)
+                nb = o.ghost.get("batch_len")
+                if nb is None:
+                    nb = o.f[ITEMS].len
+                batch = V.list_slice_to(o.f[ITEMS], nb)
+                kg = c.ghost("kg", lambda: n.f[RG].len - o.f[RG].len)
+                kp = c.ghost("kp", lambda: n.f[RP].len - o.f[RP].len)
+                pg = V.list_slice_to(o.f[QG], kg)
+                pp = V.list_slice_to(o.f[QP], kp)
+                return [
+                    # statement C14: exactly the items waiting at departure become available, in loading order;
+                    # items loaded after the departure stay behind for the next trip
+                    Def(ITEMS, V.list_slice_from(o.f[ITEMS], nb), ("C14",)),
+                    Def(RD, V.list_concat(o.f[RD], batch), ("C14",)),
+                    Clause("kg-range", lambda c: z3.And(0 <= kg, kg <= o.f[QG].len), ("C04",)),
+                    Clause("kp-range", lambda c: z3.And(0 <= kp, kp <= o.f[QP].len), ("C04",)),
+                    Def(QG, V.list_slice_from(o.f[QG], kg), ("C04", "C05")),
+                    Def(RG, V.list_concat(o.f[RG], pg), ("C04", "C05")),
+                    Def(RE, V.list_concat(o.f[RE], pg), ("C02",)),
+                    Def(QP, V.list_slice_from(o.f[QP], kp), ("C04", "C05")),
+                    Def(RP, V.list_concat(o.f[RP], pp), ("C04", "C05")),
+                ]
+            C["move_to_ready_items"] = FnContract(
+                "move_to_ready_items", [("items", ("alias", ITEMS), None)], post=post_fleet_mover,
+                entry_assume=lambda st, args: [("transit-delay-nonneg", st.f["transit_delay"].t >= 0)],
+                modifies=(ITEMS, RD, QG, RG, RE, RI, QP, RP), heap_modifies=("triggered",),
+                is_generator=True, props=("C01", "C02", "C04", "C14"))
+            fa = FnContract(
+                "fleet_activation_process", [], post=lambda c: [],
+                entry_assume=lambda st, args: [("delay-positive", st.f["delay"].t > 0)],
+                modifies=(ITEMS,), heap_modifies=("triggered",), is_generator=True, props=("C14", "C20"))
+            fa.has_normal_exit = False
+            C["fleet_activation_process"] = fa
         return C
 
     # ------------------------------------------------------------------ loop invariants
@@ -891,6 +970,10 @@ class StoreLib(LibBase):
         if fname in ("_trigger_reserve_put", "_trigger_reserve_get"):
             side = "put" if fname.endswith("put") else "get"
             return {0: TriggerLoop(lib, cls, side)}
+        if p["fleet"] and fname == "move_to_ready_items":
+            return {0: FleetMoverLoop(lib, cls, ("C01", "C02", "C04", "C14"))}
+        if p["fleet"] and fname == "fleet_activation_process":
+            return {0: ActivationLoop(lib, cls, ("C14", "C20"))}
         return {}
 
     def yield_spec(self, cls, fname, con, old, args):
@@ -915,6 +998,8 @@ class StoreLib(LibBase):
         for (nm, kind, default) in con.params:
             if kind[0] == "env":
                 args[nm] = EnvRef()
+            elif kind[0] == "alias":
+                args[nm] = FieldRef(kind[1])     # precondition: the caller passes the live list object
             else:
                 args[nm] = V.mk_value("arg." + nm, kind)
         return args
@@ -987,6 +1072,11 @@ class StoreLib(LibBase):
             # K-timeout: simpy raises ValueError for a negative delay
             ex.ctx.oblige("call.timeout.delay-nonneg@L%d" % node.lineno, st, [d.t >= 0], "call-pre", node.lineno, ("C20",))
             return [(VTimeout(d), st)]
+        if name == "any_of":
+            lst = args[0]
+            if isinstance(lst, VPyList):
+                return [(VAnyOf(lst.items), st)]
+            raise Unsupported("any_of over %r (line %d)" % (lst, node.lineno))
         if name == "process":
             g = args[0]
             if not isinstance(g, VGen):
@@ -1077,6 +1167,14 @@ class MoverYields:
     def on_yield(self, ex, ordinal, ynode, value, st):
         lib, cls = self.lib, self.cls
         p = PROFILES[cls]
+        anyof = None
+        if isinstance(value, VAnyOf):
+            anyof = value
+            tmo = [m for m in anyof.members if isinstance(m, VTimeout)]
+            evs = [m for m in anyof.members if isinstance(m, VObj)]
+            if len(tmo) != 1 or len(evs) != 1 or len(anyof.members) != 2:
+                raise Unsupported("any_of shape (line %d)" % ynode.lineno)
+            value = tmo[0]
         if not isinstance(value, VTimeout):
             raise Unsupported("yield of %r in a store process (line %d)" % (value, ynode.lineno))
         ctx = ex.ctx
@@ -1102,17 +1200,133 @@ class MoverYields:
         nid = z3.Int(tag + ".next_id")
         s.assume(nid >= s.next_id)
         s.next_id = nid
-        s.now = st.now + value.delay.t
+        if anyof is None:
+            s.now = st.now + value.delay.t
+        else:
+            # K-any_of: fires at the earliest member: the timer, or the event if that is triggered first
+            s.now = z3.Real(tag + ".now")
+            ev = evs[0].t
+            s.assume(z3.And(s.now >= st.now, s.now <= st.now + value.delay.t))
+            s.ghost["woken_by_event"] = ev
+            s.ghost["yield_now"] = st.now
+            # if the event was already triggered at the yield the condition fires in the same instant;
+            # otherwise it fires when the timer expires or when the event gets triggered
+            s.pc.append(z3.Implies(trig(st, ev), s.now == st.now))
+        if p["fleet"] and self.con.name == "move_to_ready_items" and "batch_len" not in st.ghost:
+            st.ghost["batch_len"] = self.old.f[ITEMS].len
+            s.ghost["batch_len"] = st.ghost["batch_len"]
         for nm, cl in lib.validity(cls, s, self.con):
             s.assume(cl)
         for nm, cl, props in lib.invariant(cls, s, side="assume"):
             s.assume(cl)
         for nm, cl in self.con.entry_assume(s, self.args):
             s.assume(cl)
+        if anyof is not None:
+            s.pc.append(z3.Or(s.now == st.now + value.delay.t, trig(s, ev)))
+        if "batch_len" in s.ghost:
+            s.assume(s.ghost["batch_len"] <= s.f[ITEMS].len)   # rely: the batch is still on the vehicle
         s.ghost["resume_old"] = None
         s.ghost["resume_old"] = s.fork()
         s.ghost["entry_now"] = st.now
         return [(NONE, s)]
+
+
+class InvLoop:
+    """loop whose head invariant is the full class invariant (every list may change in the body)."""
+    variant = None
+
+    def __init__(self, lib, cls, props):
+        self.lib, self.cls, self.props = lib, cls, props
+
+    def havoc(self, ex, st, node, ordinal):
+        lib, cls = self.lib, self.cls
+        tag = "lh%s" % _ctr()
+        for nm, kind in lib.schema(cls).items():
+            if nm in lib.rely_stable(cls) or kind[0] != "list":
+                continue
+            st.f[nm] = V.mk_value("%s.%s" % (tag, nm), kind)
+        st.heap_arr("triggered")
+        st.havoc_heap("triggered", tag)
+        idxname = "__i%d" % ordinal
+        if idxname in st.loc:
+            st.loc[idxname] = Num(z3.Int(tag + ".i"))
+            logic.REG.index_consts.add(tag + ".i")
+        for n in ast_assigned(node):
+            if n not in ("self",):
+                st.loc[n] = None
+        self.extra_havoc(ex, st, tag)
+
+    def extra_havoc(self, ex, st, tag):
+        pass
+
+    def inv(self, ex, entry, st, mode):
+        out = []
+        for nm, cl in self.lib.validity(self.cls, st, ex.ctx.con):
+            out.append((nm, cl))
+        for nm, cl, props in self.lib.invariant(self.cls, st, side=mode):
+            out.append((nm, cl))
+        for k, v in st.loc.items():
+            if k.startswith("__i") and isinstance(v, Num):
+                out.append(("index-nonneg", v.t >= 0))
+        return out + self.extra_inv(ex, entry, st, mode)
+
+    def extra_inv(self, ex, entry, st, mode):
+        return []
+
+
+class FleetMoverLoop(InvLoop):
+    """for-loop of FleetStore.move_to_ready_items: besides the class invariant, requests are only ever granted
+    from the head of the two queues (prefix/suffix form relative to the loop entry)."""
+
+    def extra_inv(self, ex, entry, st, mode):
+        out = []
+        for Q, R, extra in ((QG, RG, RE), (QP, RP, None)):
+            g = st.f[R].len - entry.f[R].len
+            out.append(("%s.g-range" % Q, z3.And(0 <= g, g <= entry.f[Q].len)))
+            eqs = V.list_eq_clauses(st.f[Q], V.list_slice_from(entry.f[Q], g), "Q=Q0[g:]")
+            out.append(("%s.is-suffix.len" % Q, eqs[0]))
+            out.append(("%s.is-suffix" % Q, eqs[1]))
+            pref = V.list_slice_to(entry.f[Q], g)
+            out.append(("%s.is-prefix" % R, V.list_eq_clauses(st.f[R], V.list_concat(entry.f[R], pref), "R")[1]))
+            if extra:
+                eqs = V.list_eq_clauses(st.f[extra], V.list_concat(entry.f[extra], pref), "Re")
+                out.append(("%s.len" % extra, eqs[0]))
+                out.append(("%s.is-prefix" % extra, eqs[1]))
+        return out
+
+
+class ActivationLoop(InvLoop):
+    """`while True` of FleetStore.fleet_activation_process.  Besides the class invariant the loop must make
+    progress (C20): when control returns to the head, either simulated time has advanced since the previous
+    head, or the one-shot activation event is untriggered again (so the next any_of really blocks)."""
+
+    def extra_havoc(self, ex, st, tag):
+        st.ghost["head_now"] = z3.Real(tag + ".now")
+        st.now = st.ghost["head_now"]
+        st.f["activate_fleet"] = VObj(z3.Int(tag + ".af"), "event")
+        nid = z3.Int(tag + ".next_id")
+        st.pc.append(nid >= st.next_id)
+        st.next_id = nid
+        for nm, kind in self.lib.schema(self.cls).items():
+            if kind[0] != "list" and nm not in self.lib.rely_stable(self.cls) and nm != "activate_fleet":
+                st.f[nm] = V.mk_value("%s.%s" % (tag, nm), kind)
+
+    def extra_inv(self, ex, entry, st, mode):
+        out = [("delay-positive", st.f["delay"].t > 0), ("time", st.now >= 0)]
+        if mode == "prove" and "head_now" in st.ghost:
+            af = st.f["activate_fleet"].t
+            out.append(("progress.time-advanced-or-activation-event-rearmed",
+                        z3.Or(st.now > st.ghost["head_now"], z3.Not(trig(st, af)))))
+        return out
+
+
+def ast_assigned(node):
+    import ast
+    names = set()
+    for n in ast.walk(node):
+        if isinstance(n, ast.Name) and isinstance(n.ctx, ast.Store):
+            names.add(n.id)
+    return names
 
 
 class TriggerLoop:
@@ -1169,6 +1383,7 @@ class TriggerLoop:
         grantable = lib.grantable_put if self.side == "put" else lib.grantable_get
         out.append(("skipped-not-grantable", z3.Implies(idx > 0, z3.Not(grantable(cls, st)))))
         out.append(("grants-had-room", z3.Implies(g >= 1, grantable(cls, entry))))
+        out.append(("no-grant-no-event-touched", z3.Implies(g == 0, st.heap_arr("triggered") == entry.heap_arr("triggered"))))
         # structural invariant at the loop head (inverse-function form when assumed, two-variable form as goal)
         return out + self._struct(st, mode)
 
